@@ -840,6 +840,10 @@ def run(rep, tier):
     rep.floor("DNS header accessors", accessor_siblings(rep, ud), 16)
     ct_compare_rule(rep, ur)
     rep.floor("verify outcome combinations", verify_rule(rep, ur), 8)
+    # every legal name (up to 127 labels) parses back: the walkers' anti-loop counter limits pointer jumps, not labels
+    # (rule shared with C13, where it lives)
+    from props import c13
+    rep.floor("compression pointer loops", c13.jump_counter_rule(rep, ud), 2)
     nwf = nacc = 0
     for lab, u in us.items():
         fns_ = [f for f in u.function_list if f.file.startswith(core.REPO + "/")]
